@@ -63,43 +63,63 @@ def literal(e):
     raise ValueError(e)
 
 
+def execute(plan, item, texts):
+    """build the model with the given body texts, run the scripts and the Python calls -> (results, projection)"""
+    schema = plan['schema']
+    item = dict(item, texts=texts, script_texts=[texts['script:%d' % j] for j in range(len(item['scripts']))])
+    results = []
+    d = diagram(schema, item)
+    syn = _bp.Synth(d, item.get('seed', 0))
+    stmts = syn.statements(item.get('seed') if item.get('shuffle') else None)
+    loader = bp.fresh_loader()
+    loader.input(''.join(stmts))
+    m = loader.build_metamodel()
+    domain = ooaofooa.mk_component(m, None, derived_attributes=False)
+    domain.id_generator = xtuml.IntegerGenerator()
+    oalexec.install_counter(domain, schema)
+    for k in range(len(item['scripts'])):
+        results.append(oalexec.tok(domain.find_symbol('main_%d' % k)()))
+    for c in item['calls']:
+        kw = {p['n']: literal(p['e']) for p in c['ps']}
+        if c['k'] == 'func':
+            r = domain.find_symbol(c['n'])(**kw)
+        elif c['k'] == 'classop':
+            r = getattr(domain.find_class(c['ns']), c['n'])(**kw)
+        elif c['k'] == 'bridge':
+            r = getattr(domain.find_symbol(c['ns']), c['n'])(**kw)
+        elif c['k'] == 'enum':
+            r = getattr(domain.find_symbol(c['ns']), c['n'])
+        else:
+            r = domain.find_symbol(c['n'])
+        results.append(oalexec.tok(r))
+    w = meta.World.__new__(meta.World)
+    w.schema, w.plan, w.opt, w.step = schema, plan, {}, 0
+    w.refs = {c: set(k for a in schema['assocs'] if a['src'] == c for k in a['skeys']) for c in schema['classes']}
+    w.m = domain
+    w.h = {c: list(domain._vt_born[c]) for c in schema['classes']}
+    p = w.project()
+    return results, {'pool': p['pool'], 'nav': p['nav'], 'attr': p['attr']}
+
+
 def one(plan, item):
     schema = plan['schema']
     ev = {'env': item['env_spec'], 'scripts': item['scripts'], 'calls': item['calls'], 'results': [], 'err': '',
-          'pool': {c: [] for c in schema['classes']}, 'nav': [], 'attr': {c: [] for c in schema['classes']}}
+          'pool': {c: [] for c in schema['classes']}, 'nav': [], 'attr': {c: [] for c in schema['classes']}, 'casediff': []}
     try:
         with limit(30.0):
-            d = diagram(schema, item)
-            syn = _bp.Synth(d, item.get('seed', 0))
-            stmts = syn.statements(item.get('seed') if item.get('shuffle') else None)
-            loader = bp.fresh_loader()
-            loader.input(''.join(stmts))
-            m = loader.build_metamodel()
-            domain = ooaofooa.mk_component(m, None, derived_attributes=False)
-            domain.id_generator = xtuml.IntegerGenerator()
-            oalexec.install_counter(domain, schema)
-            for k in range(len(item['scripts'])):
-                ev['results'].append(oalexec.tok(domain.find_symbol('main_%d' % k)()))
-            for c in item['calls']:
-                kw = {p['n']: literal(p['e']) for p in c['ps']}
-                if c['k'] == 'func':
-                    r = domain.find_symbol(c['n'])(**kw)
-                elif c['k'] == 'classop':
-                    r = getattr(domain.find_class(c['ns']), c['n'])(**kw)
-                elif c['k'] == 'bridge':
-                    r = getattr(domain.find_symbol(c['ns']), c['n'])(**kw)
-                elif c['k'] == 'enum':
-                    r = getattr(domain.find_symbol(c['ns']), c['n'])
-                else:
-                    r = domain.find_symbol(c['n'])
-                ev['results'].append(oalexec.tok(r))
-            w = meta.World.__new__(meta.World)
-            w.schema, w.plan, w.opt, w.step = schema, plan, {}, 0
-            w.refs = {c: set(k for a in schema['assocs'] if a['src'] == c for k in a['skeys']) for c in schema['classes']}
-            w.m = domain
-            w.h = {c: list(domain._vt_born[c]) for c in schema['classes']}
-            p = w.project()
-            ev.update({'pool': p['pool'], 'nav': p['nav'], 'attr': p['attr']})
+            ev['results'], proj = execute(plan, item, item['texts'])
+            ev.update(proj)
+        if item.get('texts_lower'):
+            # C08: the same tokens at the same positions with lower-case keywords must compute the same
+            try:
+                with limit(30.0):
+                    low = execute(plan, item, item['texts_lower'])
+            except Exception as e:
+                low = ('%s: %s' % (type(e).__name__, e), None)
+            if low[0] != ev['results']:
+                ev['casediff'].append('results with lower-case keywords: %r' % (low[0],))
+            elif low[1] != proj:
+                ev['casediff'].append('final population differs from the one computed with lower-case keywords')
     except CallTimeout:
         ev['err'] = 'Timeout'
     except Exception as e:
